@@ -52,16 +52,15 @@ def run(ctx: Ctx) -> None:
     sel = sorted(alli[: (420 if ctx.quick else 10**9)])
     n = 14
     tasks = [{"fn": "harness.checks.c01:_kernel_job", "args": {"cases": cases}, "timeout": 1800}]
-    tasks += [{"fn": "harness.diffjobs:corpus_diff_job", "args": {"indices": c, "ndraws": 3 if ctx.quick else 6}, "timeout": 3500} for c in [sel[i::n * 2] for i in range(n * 2)] if c]
+    tasks += [{"fn": "harness.diffjobs:corpus_diff_job", "args": {"indices": c, "ndraws": 3 if ctx.quick else 6}, "timeout": 360} for c in [sel[i:i + 4] for i in range(0, len(sel), 4)]]
     res = run_tasks(tasks, nworkers=n, timeout=3500)
     stats: dict[str, int] = {}
     draws = 0
     discarded = 0
     for task, out in res:
         if out.get("status") != "ok":
-            if out.get("status") == "timeout":
-                ctx.extra.setdefault("chunks_timed_out", 0)
-                ctx.extra["chunks_timed_out"] += 1
+            if out.get("status") in ("timeout", "crash"):
+                ctx.extra.setdefault("items_timed_out_or_crashed", []).append(task["args"].get("indices"))
                 continue
             raise MachineryError(f"C01 worker failed: {str(out)[:700]}")
         if task["fn"].endswith("_kernel_job"):
